@@ -11,6 +11,12 @@ def run(chk):
     batcher.check_consumer(chk, "C06")
     state_contracts.create_checkpoint(chk, "C06", want=("C06",))
     state_contracts.completion_event_contract(chk, "C06")
+    import z3
+    P_, R_, F_, D_ = z3.Ints("t_put t_recheck t_flag_set t_drain_start")
+    unset, drained = z3.Bools("recheck_saw_unset drained_and_woken")
+    chk.prove("C06.produce.no_lost_wakeup.lemma", [P_ < R_, z3.Implies(unset, R_ < F_), F_ < D_, z3.Implies(P_ < D_, drained)], z3.Implies(unset, drained),
+              desc="lemma over the two contracts above (event times; G: linearizable queue): the put precedes the re-check; a re-check that sees the flag unset precedes the flag's set, which precedes the drain; "
+                   "the drain wakes every element enqueued before it starts or while it runs (C06.consumer.fail_wakes_all) - so a caller that goes on to wait has been, or will be, woken; a caller that sees the flag set raises (fail_fast)")
     for kind in ("step", "child", "wfc", "wait", "invoke", "callback"):
         ex = explore(kind)
         handler_preamble(chk, ex, FUNCS[kind])
